@@ -6,7 +6,9 @@ import hashlib
 from common import case, case_to_json, shrink_bytes, short, coq_bytes, coq_result, coq_lit
 
 ID = "C14"
-MAKE_TARGETS = ["Props/C14.v", "GenProps/WifGen.v"]
+MAKE_TARGETS = ["Props/C14.v", "GenProps/WifGen.v", "Props/C14Ext.v"]
+# further Props files whose `Print Assumptions` blocks belong to this check (common.build_obligations)
+ASSUMPTION_FILES = ["Props/C14Ext.v"]
 GEN_TABLES = ["WifGen"]
 ASSUMPTIONS = [
     "SEC1 theorems are relative to the explicit premise sec1_facts p a b (p = 3 mod 4, the candidate (y^2)^((p+1)/4) is +-y, "
@@ -514,7 +516,16 @@ def _dict_tuple(d):
     return (bytes.fromhex(d["version"]), d["network"], d["addr_type"], bytes.fromhex(d["key"]), bytes.fromhex(d["data"]))
 
 
+def _i_pem_roundtrip(label, der, ws1, ws2):
+    """encode_pem with BEGIN/END <label> lines, white space around it, decode_pem of that text"""
+    pem = _pem().encode_pem(der, header=b"-----BEGIN " + label + b"-----", footer=b"-----END " + label + b"-----")
+    return (pem, _pem().decode_pem(ws1 + pem + ws2))
+
+
 IMPL = {
+    "decode_pem": lambda pem: _pem().decode_pem(pem),
+    "encode_pem_default": lambda der: _pem().encode_pem(der),
+    "pem_roundtrip": _i_pem_roundtrip,
     "pubkey": lambda x, y, c: _u().pubkey(x, y, compressed=c),
     "point": _i_point,
     "is_point": _i_is_point,
@@ -1406,6 +1417,78 @@ def _gen_numeral(rng, T, out):
 _LAST = {}
 
 
+# ---------------------------------------------------------------- extension: the armor layer for any label
+_WS = b" \t\n\r\x0b\x0c"
+
+
+def clean_label(label):
+    """the premise of C14_ext_pem_roundtrip"""
+    return len(label) > 0 and b"\n" not in label and b"-" not in label
+
+
+def ref_strict_pem(text):
+    """textual armor read strictly (RFC 7468 shape): -> (label, der) or None"""
+    t = text.strip(_WS)
+    lines = t.split(b"\n")
+    if len(lines) < 2:
+        return None
+    h, f = lines[0], lines[-1]
+    if not (h.startswith(b"-----BEGIN ") and h.endswith(b"-----") and f.startswith(b"-----END ") and f.endswith(b"-----")):
+        return None
+    lh, lf = h[11:-5], f[9:-5]
+    if lh != lf or not clean_label(lh):
+        return None
+    body = b"".join(lines[1:-1])
+    if any(ch not in b"ABCDEFGHIJKLMNOPQRSTUVWXYZabcdefghijklmnopqrstuvwxyz0123456789+/=" for ch in body):
+        return None
+    try:
+        return lh, base64.b64decode(body, validate=True)
+    except Exception:
+        return None
+
+
+def _gen_pem_ext(rng, T, out):
+    alphabet = bytes(c for c in range(32, 127) if c != 0x2d)
+    labels = [b"CERTIFICATE", b"EC PRIVATE KEY", b"PUBLIC KEY", b"X", b" ", b"END", b"BEGIN END", b"\x00", b"\xff\xfe", b"\r", b"A\tB"]
+    for _ in range(200 if T else 25):
+        labels.append(bytes(rng.choice(alphabet) for _ in range(rng.randrange(1, 30))))
+    lens = [0, 1, 2, 3, 47, 48, 49, 95, 96, 97, 118, 144, 200]
+    for lb in labels:
+        for L in (lens if T else rng.sample(lens, 3)):
+            der = bytes(rng.randrange(256) for _ in range(L))
+            ws1 = rng.choice([b"", b"", b"\n", b" \t", b"\r\n\x0b\x0c"])
+            ws2 = rng.choice([b"", b"", b"\n\n", b" ", b"\r\n"])
+            out.append(case("armor-any-label-clean" + ("-ws" if ws1 or ws2 else ""), "pem_roundtrip", lb, der, ws1, ws2))
+    # bodies whose first / last bytes are white space, NUL, dashes or armor text
+    for der in (b"\0", b"\0\0abc\0", b" ", b"\n", b"abc\n", b"\r\n", b" abc ", b"-", b"-----", b"-----END X-----", b"-----BEGIN X-----\n",
+                b"\0" * 48, b"\0" * 49, b"\xff" * 48 + b"\0"):
+        out.append(case("armor-der-edge-bytes", "pem_roundtrip", rng.choice([b"X", b"CERTIFICATE"]), der, b"", rng.choice([b"", b"\n"])))
+        out.append(case("armor-der-edge-bytes", "encode_pem_default", der))
+    # labels outside the premise: empty, with "-", with a newline, looking like armor themselves
+    bad = [b"", b"-", b"A-B", b"A-----B", b"-----END X", b"X-----END X", b"X\nY", b"\n", b"X-----\n-----END X", b"-----BEGIN X",
+           b"X-----END X-----", b"A--", b"--A"]
+    for lb in bad:
+        for L in (0, 1, 48, 49):
+            der = bytes(rng.randrange(256) for _ in range(L))
+            out.append(case("armor-any-label-unclean", "pem_roundtrip", lb, der, b"", b""))
+    # text around the armor that is not white space
+    for junk in (b"x", b"\x00", b"-", b"\xa0", b"\x85"):
+        out.append(case("armor-junk-before", "pem_roundtrip", b"X", b"abc", junk, b""))
+        out.append(case("armor-junk-after", "pem_roundtrip", b"X", b"abc", b"", junk))
+    # default header / footer
+    for L in lens:
+        out.append(case("encode-pem-default", "encode_pem_default", bytes(rng.randrange(256) for _ in range(L))))
+    # decode_pem on everything decode_base64_pem is run on (the wrapper must not differ), armor fuzz sampled
+    seen = 0
+    for c in list(out):
+        if c["op"] == "decode_base64_pem":
+            if c["cls"].startswith("armor-") and not T:
+                seen += 1
+                if seen % 4:
+                    continue
+            out.append(case("decode_pem:" + c["cls"], "decode_pem", c["args"][0], strict=True))
+
+
 def gen_cases(rng, tier):
     T = tier == "thorough"
     out = []
@@ -1419,6 +1502,7 @@ def gen_cases(rng, tier):
     wl = _gen_lookalike(rng, T, out, keys, pts)
     _gen_wif_seq(rng, T, out, keys, wl)
     _gen_numeral(rng, T, out)
+    _gen_pem_ext(rng, T, out)
     _LAST["cases"] = out
     _LAST["keys"] = keys
     _LAST["pts"] = pts
@@ -1452,7 +1536,51 @@ def _try(f, *a):
         return ("err", type(e).__name__)
 
 
+PEM_EXT_OPS = ("pem_roundtrip", "encode_pem_default", "decode_pem")
+
+
+def _oracle_pem_ext(op, a):
+    pm = _pem()
+    if op == "pem_roundtrip":
+        label, der, ws1, ws2 = a
+        if not clean_label(label) or ws1.strip(_WS) or ws2.strip(_WS):
+            return None          # outside the statement: the label is not a PEM label / text around the armor
+        r = _try(_i_pem_roundtrip, label, der, ws1, ws2)
+        if r[0] != "ok":
+            return "decode_pem(encode_pem(der, label %r)) raised %s" % (label, r[1])
+        pem, back = r[1]
+        if back != der:
+            return "decode_pem(encode_pem(der)) = %s, der = %s" % (back.hex(), der.hex())
+        if pem != ref_pem(der, label):
+            return "encode_pem is not the RFC 7468 text (64-character base64 lines between BEGIN/END %r)" % label
+        if ref_strict_pem(ws1 + pem + ws2) != (label, der):
+            return "a strict reader does not read encode_pem's text back as (label, der)"
+        return None
+    if op == "encode_pem_default":
+        r = _try(pm.encode_pem, a[0])
+        if r[0] != "ok" or r[1] != ref_pem(a[0], b"CERTIFICATE"):
+            return "encode_pem(der) is not the CERTIFICATE armor of der"
+        r2 = _try(pm.decode_pem, r[1])
+        return None if r2 == ("ok", a[0]) else "decode_pem(encode_pem(der)) = %r" % (r2,)
+    if op == "decode_pem":
+        text = a[0]
+        r = _try(pm.decode_pem, text)
+        want = ref_strict_pem(text)
+        if want is not None and r != ("ok", want[1]):
+            return "well-formed armor (label %r) decoded to %r, the body is %s" % (want[0], r, want[1].hex())
+        if r[0] == "ok":
+            t = text.strip(_WS)
+            if not (t.startswith(b"-----BEGIN ") and t.endswith(b"-----") and b"-----END " in t):
+                return "decode_pem accepted text that does not begin with a BEGIN line and end with an END line"
+            if r != _try(pm.decode_base64_pem, text):
+                return "decode_pem differs from decode_base64_pem"
+        return None
+    return "no literal statement registered for op %s" % op
+
+
 def prop_oracle(c):
+    if c["op"] in PEM_EXT_OPS:
+        return _oracle_pem_ext(c["op"], c["args"])
     import bits
     u = _u()
     op, a = c["op"], c["args"]
@@ -1679,9 +1807,9 @@ def extra_checks(ctx):
     # (1) the literal statement of C14 evaluated on the implementation for the generated inputs
     n = 0
     seen = set()
-    budget = 100000 if T else 7000
-    for c in sorted(cases, key=lambda c: (not c["op"].startswith("cli_"), not ("lookalike" in c["cls"] or "seq" in c["cls"] or "encaps" in c["cls"] or "carry" in c["cls"] or "pow" in c["cls"]))):     # the command-line cases first
-        if c["op"] not in ORACLE_OPS:
+    budget = 100000 if T else 7500
+    for c in sorted(cases, key=lambda c: (c["op"] not in PEM_EXT_OPS, not c["op"].startswith("cli_"), not ("lookalike" in c["cls"] or "seq" in c["cls"] or "encaps" in c["cls"] or "carry" in c["cls"] or "pow" in c["cls"]))):     # the command-line cases first
+        if c["op"] not in ORACLE_OPS and c["op"] not in PEM_EXT_OPS:
             continue
         if c["op"] == "point" and c["args"][0] == 0 and c["cls"].startswith("lenbad") and not T and n % 3:
             n += 1
